@@ -89,6 +89,30 @@ func cmdFunc(args []string) {
 		defer os.RemoveAll(dir)
 	}
 	sem := make(chan struct{}, 16)
+	for _, rf := range specs.Refinements {
+		for _, pat := range fs.Args() {
+			if !strings.HasPrefix(pat, "refine:") || !strings.Contains(rf.Iface, strings.TrimPrefix(pat, "refine:")) {
+				continue
+			}
+			vc := genRefinement(ld, specs, rf)
+			fmt.Printf("== %s: %d obligations\n", vc.Label, len(vc.Obls))
+			if vc.GenErr != "" {
+				fmt.Println("   GENERATOR ERROR:", vc.GenErr)
+			}
+			for _, se := range vc.SpecErrors {
+				fmt.Println("   SPEC ERROR:", se)
+			}
+			for _, r := range solveFunc(context.Background(), vc, *timeout, dir, sem, false) {
+				mark := "ok  "
+				if r.Status == "failed" || r.Status == "vacuous" {
+					mark = "FAIL"
+				} else if r.Status == "undecided" {
+					mark = "??  "
+				}
+				fmt.Printf("   %s %-10s %-8s %s  [%s] %v\n", mark, r.Status, r.Solver, r.Obl.Name, r.Obl.Pos, r.Answers)
+			}
+		}
+	}
 	for _, pat := range fs.Args() {
 		var keys []string
 		for k := range ld.funcs {
